@@ -42,8 +42,13 @@ def worker_main(prop, seed, tier, first, stride, count, out):
     faulthandler.enable()
     with open(out, "w") as f:
         for idx in range(first, count, stride):
-            faulthandler.dump_traceback_later(300, exit=True)
-            rec = mod.run_one(seed, tier, idx)
+            faulthandler.dump_traceback_later(600, exit=True)
+            try:
+                rec = mod.run_one(seed, tier, idx)
+            except Exception as e:  # noqa: BLE001 an exception of the machinery itself in one run: recorded, never a violation
+                import traceback
+                rec = {"run": idx, "digest": "harness-error", "key": None, "steps": 0, "stats": {"harness_skipped_runs": 1},
+                       "violations": [], "sample": None, "harness_error": f"{type(e).__name__}: {e}\n" + traceback.format_exc()[-1500:]}
             faulthandler.cancel_dump_traceback_later()
             f.write(kernel.jdump(rec) + "\n")
             f.flush()
@@ -188,6 +193,11 @@ def main_check(prop, tier, seed, runs_override=None, workers=None):
     if hasattr(mod, "extra_main"):
         records += mod.extra_main(seed, tier)
     stats, digests, keys, steps, extra = aggregate(records)
+    skipped = [r for r in records if r.get("harness_error")]
+    for r in skipped[:5]:
+        print(f"HARNESS-SKIP: run={r['run']} {r['harness_error'][:400]}", file=sys.stderr)
+    if len(skipped) > max(3, len(records) // 200):
+        raise HarnessError(f"{len(skipped)} runs ended in an exception of the checking machinery")
 
     known = load_known(prop)
     by_class = {}
